@@ -31,6 +31,14 @@ def run(ctx, rep):
     PR.text_string_writer(rep, lib)
     PR.text_keywords(rep, lib)
     PR.text_nested(rep, lib)
+    # the text of a nested array / object is the JSON printer's concise text: member names written by the string
+    # writer, separators and brackets in place (shared with C02)
+    PR.json_structure(rep, lib)
+    from rules import common as _common
+    _common.clone_faithful(rep, lib)
+    titles_push(rep, lib)
+    from rules import c12 as _c12
+    _c12.build_shape(rep, lib)
     PR.dispatch(rep, lib, rid="C15-DISPATCH")
     NR.print_direct(rep, lib, rid="C15-NUMFMT")
     PR.text_rows(rep, lib)
@@ -38,3 +46,37 @@ def run(ctx, rep):
     # the row itself: with_result appends exactly one entry and changes nothing else
     from rules import c12
     common.share(c12, ctx, rep, {"C12-FRAME", "C12-EXTEND"}, key_prefixes=["with_result.results"], floors={"C12-FRAME": 0, "C12-EXTEND": 0})
+
+
+def titles_push(rep, lib):
+    """One title per selection, in order."""
+    from lib.prov import Prov
+    from rules import pipeline_rules as _P
+    r = rep.rule("C15-TITLES", "Titles::with_title appends the new title on every path (a repeated name is a column "
+                 "of its own): the header and the width of the rows have one entry per selection", floor=1,
+                 analysis="A4 provenance of the appended value + A2 must-pass-through")
+    b = lib.bodies.get("processor::Titles::with_title")
+    if b is None:
+        r.missing("Titles::with_title")
+        return r
+    pr = Prov(b, common.LOOK)
+    adds = []
+    for c in b.calls:
+        t = (c.name or "").rsplit("::", 1)[-1]
+        if t in ("push", "once", "push_back", "extend_one", "insert") or (c.name or "").endswith("iter::once"):
+            for i in range(len(c.args)):
+                if any(a[0] == "arg" and a[1] == 2 for a in pr.call_arg_origins(c, i)):
+                    adds.append(c)
+                    break
+    if not adds:
+        r.bad("with_title#append", "the new title is never appended", b.where())
+        return r
+    esc = b.must_pass({c.bb for c in adds}, b.returns(), start=0)
+    if esc:
+        r.bad("with_title#append", "the new title is not appended on every path: a selection can lose its column",
+              adds[0].where(), witness=_P.witness(b, 0, esc[0], [c.bb for c in adds]))
+    elif any(b.in_loop(c.bb) for c in adds):
+        r.bad("with_title#append", "the new title is appended in a loop", adds[0].where())
+    else:
+        r.ok("with_title#append", "appended once on every path", adds[0].where())
+    return r
